@@ -190,7 +190,7 @@ _TERMINALS = ["log_integral", "evaluate_ln", "integrate_x", "integrate_xx", "int
               "integrate_cubic_inner", "integrate_cubic_outer", "integrate_xAxx", "integrate_xbxx", "integrate_quartic_inner",
               "integrate_quartic_outer", "log_factor", "entropy_kl", "sample"]
 _PIPES = ["joint_eval", "marginal_eval", "bayes_posterior", "set_y_evidence", "cond_entropies", "log_conditional",
-          "condition_on_dims", "kalman_scan", "lrbf_marginal", "lsem_log_conditional_y", "truncated", "nn_control", "update_in_program"] + \
+          "condition_on_dims", "kalman_scan", "lrbf_marginal", "lsem_log_conditional_y", "truncated", "nn_control", "update_in_program", "condition_explicit_traced"] + \
          [f"{p_}:{l_}" for p_ in ("het_moments", "het_bound") for l_ in ("exp", "cosh", "heaviside", "relu")]
 
 
@@ -273,6 +273,11 @@ def _strategy_cond(shapes):
             shapes_["SG"] = (1, Dy, Dy)
         case["P"] = {nm: draw(gen.arr(sh, -1.0, 1.0)) for nm, sh in sorted(shapes_.items())}
         case["isotropic"] = _isotropic(draw, case["P"])
+        if case["pipe"] == "condition_explicit_traced":
+            # a partition of the Dx + Dy joint coordinates into Dx free and Dy conditioned-on ones, in arbitrary order
+            perm = list(draw(st.permutations(list(range(Dx + Dy)))))
+            case["P"]["ia"] = np.array(perm[:Dx], float)
+            case["P"]["ib"] = np.array(perm[Dx:], float)
         case["d"] = draw(gen.arr((2, max(N, 2) if case["pipe"] == "kalman_scan" else N, Dx + Dy), -1.5, 1.5))
         case["w_seed"] = draw(st.integers(0, 10**6))
         case["dirs"] = draw(st.integers(0, 10**6))
